@@ -116,9 +116,10 @@ class _AioServer:
         self.loop.call_soon_threadsafe(self.loop.stop)
         self._thread.join(10)
 
-    def raw(self, method, raw_target, headers, body, chunked=False):
+    def raw(self, method, raw_target, headers, body, chunked=False, segmented=False):
         """Send one HTTP/1.1 request with the target exactly as given.  chunked: the body travels
-        with Transfer-Encoding: chunked in pieces of uneven sizes instead of a Content-Length."""
+        with Transfer-Encoding: chunked in pieces of uneven sizes instead of a Content-Length.
+        segmented: the request reaches the server in several TCP segments, a moment apart."""
         s = socket.create_connection(("127.0.0.1", self.port), timeout=60)
         try:
             lines = ["%s %s HTTP/1.1" % (method, raw_target), "Host: localhost", "Connection: close"]
@@ -141,7 +142,18 @@ class _AioServer:
             for k, v in hdrs:
                 lines.append("%s: %s" % (k, v))
             data = ("\r\n".join(lines) + "\r\n\r\n").encode("iso-8859-1") + payload
-            s.sendall(data)
+            if segmented and len(payload) > 8:
+                import time as _time
+                head = len(data) - len(payload)
+                cuts = [head + max(1, len(payload) // 3), head + max(2, 2 * len(payload) // 3)]
+                s.setsockopt(socket.IPPROTO_TCP, socket.TCP_NODELAY, 1)
+                prev = 0
+                for cut in cuts + [len(data)]:
+                    s.sendall(data[prev:cut])
+                    prev = cut
+                    _time.sleep(0.04)
+            else:
+                s.sendall(data)
             chunks = []
             while True:
                 c = s.recv(65536)
@@ -259,8 +271,10 @@ class World:
         """Send a request whose target is exactly raw_target (already encoded)."""
         if self.frontend == "aiohttp":
             chunked, self.chunked_next = getattr(self, "chunked_next", False), False
-            return self._aio.raw(method, raw_target, headers, body, chunked=chunked)
+            segmented, self.segmented_next = getattr(self, "segmented_next", False), False
+            return self._aio.raw(method, raw_target, headers, body, chunked=chunked, segmented=segmented)
         self.chunked_next = False
+        self.segmented_next = False
         return self._wsgi(method, raw_target, headers, body)
 
     def _wsgi(self, method, raw_target, headers, body):
